@@ -236,6 +236,26 @@ def bath_closed_form(inp):
                         if abs(c - want) > 2e-8:
                             bad.append({'temperature': temp, 'correlation (w1,t1,w2,t2)': [w1, t1, w2, t2], 'dagg': list(dagg), 'interaction_picture': ip_,
                                         'change_only': change_only, 'got': str(complex(c)), 'closed form': str(complex(want))})
+    # FRESH objects (nothing generated yet): a correlation whose latest time is one step; occupation time axes for several lengths
+    temp, cop = 0.7, 0.5 * sz
+    corr = oqupy.PowerLawSD(alpha=0.2, zeta=1.0, cutoff=3.0, cutoff_type='exponential', temperature=temp)
+    bath = oqupy.Bath(cop, corr)
+    par = oqupy.TempoParameters(dt=0.1, dkmax=None, epsrel=1e-9)
+    rho = np.array([[0.6, 0.2 - 0.1j], [0.2 + 0.1j, 0.4]])
+    for n in (2, 11, 12, 14):
+        pt = oqupy.pt_tempo_compute(bath, 0.0, n * 0.1, par, progress_type='silent')
+        for (w1, t1, w2, t2) in ((0.5, 0.1, 1.3, 0.1), (0.5, 0.0, 1.3, 0.1)):
+            b = oqupy.bath_dynamics.TwoTimeBathCorrelations(oqupy.System(0.8 * cop), bath, pt, initial_state=rho)
+            c = b.correlation(w1, t1, w2, t2, dw=(0.1, 0.2), dagg=(1, 0), change_only=True, interaction_picture=True, progress_type='silent')
+            g1, g2 = 0.1 * corr.spectral_density(w1) ** 0.5, 0.2 * corr.spectral_density(w2) ** 0.5
+            want = 0.25 * (1j * g2 * integral(w2, t2, -1)) * (-1j * g1 * integral(w1, t1, 1))
+            if abs(c - want) > 2e-8:
+                bad.append({'fresh object, process tensor length': n, 'correlation (w1,t1,w2,t2)': [w1, t1, w2, t2], 'got': str(complex(c)),
+                            'closed form': str(complex(want))})
+        b = oqupy.bath_dynamics.TwoTimeBathCorrelations(oqupy.System(0.8 * cop), bath, pt, initial_state=rho)
+        t, occ = b.occupation(1.3, 0.1, change_only=True, progress_type='silent')
+        if len(t) != n + 1 or len(occ) != n + 1 or np.abs(np.asarray(t)[:n + 1] - 0.1 * np.arange(n + 1)).max() > 1e-12:
+            bad.append({'occupation: process tensor length': n, 'number of times': len(t), 'number of values': len(occ), 'required': n + 1})
     return {'violates': bool(bad), 'detail': bad[:6], 'number of deviations': len(bad)}
 
 
